@@ -1175,6 +1175,51 @@ func main() {
 		}
 		findItems(ds, ps, "minority-down")
 		findItems(ds, ps, "minority-down")
+	case "lagging-replace":
+		// a follower is down while a node leaves AND another one joins (a failed machine is replaced) and the
+		// membership log is compacted: the snapshot the follower catches up with names as many nodes as it knows
+		// itself.  Four members to begin with, so that the zero group keeps its quorum without the follower
+		d := mk(4, "127.0.0.1:"+a.port)
+		okd := d.start()
+		okv := 0
+		if okd {
+			okv = 1
+			ps = append(ps, d)
+		}
+		emit(event{"ev": "joined", "node": 4, "addr": ":" + d.port, "ok": okv})
+		observe(ps, "join")
+		b.kill()
+		ctx, cancel := context.WithTimeout(context.Background(), 15*time.Second)
+		_, err := pb.NewNodesManagerClient(a.conn).RemoveNode(ctx, &pb.Node{Id: 3})
+		cancel()
+		okv, es := 1, ""
+		if err != nil {
+			okv, es = 0, err.Error()
+		}
+		emit(event{"ev": "left", "node": 3, "ok": okv, "err": es})
+		time.Sleep(1500 * time.Millisecond)
+		c.kill()
+		e := mk(5, "127.0.0.1:"+a.port)
+		oke := e.start()
+		okv = 0
+		if oke {
+			okv = 1
+			ps = append(ps, e)
+		}
+		emit(event{"ev": "joined", "node": 5, "addr": ":" + e.port, "ok": okv})
+		observe(ps, "join")
+		for _, p := range []*proc{a, d, e} {
+			if p.checkAlive() {
+				p.cmd.Process.Signal(syscall.SIGUSR1)
+			}
+		}
+		time.Sleep(1500 * time.Millisecond)
+		emit(event{"ev": "snapshotted"})
+		b.start()
+		observe(ps, "restart")
+		// a dataset created through the follower is placed on members only
+		create(b, 3, 3)
+		observe(ps, "create")
 	case "leave":
 		ctx, cancel := context.WithTimeout(context.Background(), 5*time.Second)
 		_, err := pb.NewNodesManagerClient(a.conn).RemoveNode(ctx, &pb.Node{Id: 3})
